@@ -142,7 +142,7 @@ __CPROVER_ensures(__CPROVER_return_value == 0 ==> (gh_view & V_PAYLOAD))
 #endif
 /* sync(): blocks until resolved.  std::atomic<bool>::wait is a primitive: it returns only after the flag was set, which only the resolver's
  * walk does (sync_awaiter::wakeup) - so the environment is forced to have resolved; the flag's release/acquire pair carries the payload. */
-#if defined(CV_HAS_co_sync) || defined(CV_HAS_co_force_sync) || defined(CV_HAS_co_wait)
+#if defined(CV_HAS_co_sync) || defined(CV_HAS_co_force_sync) || defined(CV_HAS_co_wait) || defined(CV_HAS_fu_wait_e2e) || defined(CV_HAS_fu_force_wait_e2e)
 int gh_wait_calls;
 void atomic_bool_wait(ATOMB *flag, cv_i1 old, cv_i32 order) {
   gh_wait_calls++;
@@ -167,6 +167,47 @@ __CPROVER_ensures(gh_view & V_PAYLOAD)
 #endif
 #ifdef CV_HAS_co_force_sync
 void co_force_sync(COAW *this_) SYNC_CONTRACT(this_)
+#ifdef CV_CHECK_C03
+__CPROVER_ensures(gh_view & V_PAYLOAD)
+#endif
+;
+#endif
+
+/* ---- future<int>::wait() / force_wait() END TO END under protocol F: the REAL co_awaiter::sync / force_sync (subscribe_check_ready loop, stack
+ * sync_awaiter, blocking-wait primitive) followed by the REAL await_resume / value(), against an environment that may push other waiters and
+ * may resolve at every atomic step.  Complements the forwarder units of w_spec.h (which abstract sync and let the resolver write the payload
+ * while the caller blocks): here the resolver has completed tag and payload (C01: before it swings the slot) and only the swing is concurrent.
+ * Released exactly once (at most one blocking wait, stack awaiter not left subscribed), never before the ready marker is set, outcome map of
+ * the completed result.
+ * SCOPE: outcomes value / exception only.  For a DROPPED promise value() asks pending() - a relaxed load of the slot - and the load primitive of
+ * lib/rt_atomic_protF.c lets every non-RMW load of a shared slot be stale ("any earlier chain value") without read-read coherence for this
+ * thread: it may answer "still pending" although this very thread has already seen the ready marker, so value_not_ready_exception cannot be
+ * excluded in that model (tried: the clause `dropped ==> await_canceled_exception` fails on the unchanged tree for exactly this reason - a
+ * limit of the primitive, not of the library: coherence forbids the stale read once sync() has observed the marker / was woken through the
+ * flag).  The dropped outcome is decided by the forwarder units (w_spec.h) and by C01 value() (exclusive slot). */
+#if defined(CV_HAS_fu_wait_e2e) || defined(CV_HAS_fu_force_wait_e2e)
+#define E2E_STATE(f) ((f)->base_future_common._state)
+#define E2E_VALUE(f) (*(cv_i32 *)&(f)->f1)
+#define E2E_EXCP(f)  (*(void **)&(f)->f1)
+#define WAIT_E2E_CONTRACT(this_) \
+__CPROVER_requires(A_PRE && gh_F_fut == (void *)(this_) && gh_F_slot == (void **)&(this_)->base_future_common._awaiter._M_b._M_p && gh_my_node == 0 && gh_node_own == OWN_NONE && gh_wait_calls == 0 && *TLS_GUARD == 1 && *QINST == 0) \
+__CPROVER_requires((E2E_STATE(this_) == 1 || E2E_STATE(this_) == 3) && (E2E_STATE(this_) == 3 ==> E2E_EXCP(this_) != 0)) \
+__CPROVER_assigns(*gh_F_slot, PROTF_GHOSTS, gh_wait_calls, cv_exc_pending, cv_exc_obj, cv_exc_tinfo, gh_ep_addref, gh_ep_release) \
+__CPROVER_ensures(*gh_F_slot == F_DIS)                                                                  /* back only after the result is set */ \
+__CPROVER_ensures(gh_wait_calls <= 1 && gh_node_own != OWN_CHAIN && gh_node_own != OWN_RESOLVER)        /* released once; the stack awaiter is not left subscribed */ \
+__CPROVER_ensures(E2E_STATE(this_) == 1 ==> (cv_exc_pending == 0 && __CPROVER_return_value == &E2E_VALUE(this_)))   /* the stored value itself */ \
+__CPROVER_ensures(E2E_STATE(this_) == 3 ==> (cv_exc_pending == 1 && cv_exc_obj == E2E_EXCP(this_)))                 /* exactly the stored exception */ \
+__CPROVER_ensures(E2E_STATE(this_) == __CPROVER_old(E2E_STATE(this_)) && gh_allocs == __CPROVER_old(gh_allocs))
+#endif
+#ifdef CV_HAS_fu_wait_e2e
+cv_i32 *fu_wait_e2e(FUT *this_) WAIT_E2E_CONTRACT(this_)
+#ifdef CV_CHECK_C03
+__CPROVER_ensures(gh_view & V_PAYLOAD)
+#endif
+;
+#endif
+#ifdef CV_HAS_fu_force_wait_e2e
+cv_i32 *fu_force_wait_e2e(FUT *this_) WAIT_E2E_CONTRACT(this_)
 #ifdef CV_CHECK_C03
 __CPROVER_ensures(gh_view & V_PAYLOAD)
 #endif
